@@ -122,42 +122,38 @@ def step_rules(ctx, w, tb):
         ctx.check(A["terminal_ty"] not in t and "buffer::Buffer" not in t and not f["ty"].get("hp"), "S4a", "field:" + f["name"],
                   "parser field `%s: %s` can reference the screen" % (f["name"], t))
     ctx.rule("S4b", "Vt::feed executes exactly the function the parser returned, and only when it returned one")
-    b = w.body(WD.VT_FEED)
-    T = w.terms(WD.VT_FEED)
-    ex_sites = [cs for cs in E.call_sites(WD.VT_FEED) if cs.callee == execu]
-    fd_sites = [cs for cs in E.call_sites(WD.VT_FEED) if cs.callee == feed]
-    ctx.check(len(ex_sites) == 1 and len(fd_sites) == 1, "S4b", "sites", "Vt::feed has %d parser call(s) and %d executor call(s); expected one each" % (len(fd_sites), len(ex_sites)), loc=w.fn_loc(WD.VT_FEED))
-    if len(ex_sites) == 1 and len(fd_sites) == 1:
-        ex, fd = ex_sites[0], fd_sites[0]
-        arg = T.operand(ex.term["args"][1], ex.point)
-        # payload of the Some variant of the parser result
-        def from_parser(t):
-            # ("field", ("downcast", call, "Some"), "0") or load-like
-            s_ = repr(t)
-            return feed in s_ and "Some" in s_
-        ctx.check(from_parser(arg), "S4b", "argument", "the executor's argument is %s, not the payload of the parser's result" % w.tstr(WD.VT_FEED, arg),
-                  loc=w.site_loc(ex), sample={"argument": w.tstr(WD.VT_FEED, arg)})
-        ctx.check(b.point_dominates(fd.point, ex.point), "S4b", "order", "the executor call is not dominated by the parser call", loc=w.site_loc(ex))
-        # control dependence on the discriminant test of the result
-        guarded = False
-        for blk in b.normal_blocks():
-            t = b.term(blk)
-            if t["k"] != "switch":
-                continue
-            d = T.operand(t["discr"], (blk, b.n_stmts(blk)))
-            if d[0] == "discr" and feed in repr(d):
-                for val, tgt in t["targets"]:
-                    if val == 1 and b.edge_controls((blk, tgt), ex.point[0]):
-                        guarded = True
-                if not guarded and b.edge_controls((blk, t["otherwise"]), ex.point[0]) and [v for v, _ in t["targets"]] == [0]:
-                    guarded = True
-        ctx.check(guarded, "S4b", "guard", "the executor call is not control-dependent on the parser having returned Some(_)", loc=w.site_loc(ex))
+    direct_step(ctx, w, WD.VT_FEED, feed, execu, "S4b")
     ctx.rule("S4c", "Vt::feed_str is the fold chars -> parser step (filter_map) -> executor (for_each): nothing else touches the terminal per character")
     T = w.terms(WD.VT_FEED_STR)
     sites = E.call_sites(WD.VT_FEED_STR)
     fe = [cs for cs in sites if (cs.decl or "").endswith("Iterator::for_each")]
     ok = False
     detail = ""
+    via_feed = [cs for cs in sites if cs.callee == WD.VT_FEED]
+    if not fe and via_feed and not any(cs.callee in (execu, feed) for cs in sites):
+        # `for ch in s.chars() { self.feed(ch) }`: the per-character step IS Vt::feed (checked by S4b)
+        ch = WD.strip_names(T.operand(via_feed[0].term["args"][1], via_feed[0].point))
+        sc = repr(ch)
+        bad = [c.callee for c in sites if c.callee.rsplit("::", 1)[-1] in ("rev", "skip", "take", "filter", "step_by", "skip_while", "take_while", "peekable", "map")]
+        okc = len(via_feed) == 1 and "::chars" in sc and "::next" in sc and not bad
+        ctx.check(okc, "S4c", WD.VT_FEED_STR + ":via-feed", "Vt::feed_str must pass every character of the input, in order, to Vt::feed (source: %s)" % w.tstr(WD.VT_FEED_STR, ch)[:100], loc=w.fn_loc(WD.VT_FEED_STR),
+                  sample={"char_source": w.tstr(WD.VT_FEED_STR, ch)[:100]})
+        return
+    if not fe and any(cs.callee == execu for cs in sites):
+        # explicit loop form: `for ch in s.chars() { if let Some(op) = parser.feed(ch) { terminal.execute(op) } }`
+        direct_step(ctx, w, WD.VT_FEED_STR, feed, execu, "S4c")
+        fd = [cs for cs in sites if cs.callee == feed]
+        okc = False
+        if len(fd) == 1:
+            ch = WD.strip_names(T.operand(fd[0].term["args"][1], fd[0].point))
+            sc = repr(ch)
+            okc = "::chars" in sc and "Iterator>::next" in sc.replace("iterator::Iterator", "Iterator>") or ("::chars" in sc and "::next" in sc)
+            bad = [c.callee for c in sites if c.callee.rsplit("::", 1)[-1] in ("rev", "skip", "take", "filter", "step_by", "skip_while", "take_while", "peekable", "map")]
+            okc = okc and not bad
+            detail = w.tstr(WD.VT_FEED_STR, ch)[:120]
+        ctx.check(okc, "S4c", WD.VT_FEED_STR + ":chars", "the characters fed to the parser are %s; they must be the characters of the input string, in order, unadapted" % detail, loc=w.fn_loc(WD.VT_FEED_STR),
+                  sample={"char_source": detail})
+        return
     if len(fe) == 1:
         recv = T.operand(fe[0].term["args"][0], fe[0].point)
         clo = T.operand(fe[0].term["args"][1], fe[0].point)
@@ -184,3 +180,38 @@ def step_rules(ctx, w, tb):
               "Vt::feed_str is not the recognised fold `s.chars().filter_map(|ch| parser.feed(ch)).for_each(|op| terminal.execute(op))` (receiver of for_each: %s); "
               "the per-character step cannot be shown to execute exactly the parser's results" % detail,
               loc=w.fn_loc(WD.VT_FEED_STR), sample={"for_each_receiver": detail})
+
+
+def direct_step(ctx, w, fn, feed, execu, rule):
+    """In `fn` the executor is called exactly with the payload of the parser
+    step's Some(_) result, only under that test, after that parser call."""
+    E = w.E
+    b = w.body(fn)
+    T = w.terms(fn)
+    ex_sites = [cs for cs in E.call_sites(fn) if cs.callee == execu]
+    fd_sites = [cs for cs in E.call_sites(fn) if cs.callee == feed]
+    ctx.check(len(ex_sites) == 1 and len(fd_sites) == 1, rule, fn + ":sites", "%s has %d parser call(s) and %d executor call(s); expected one each" % (fn, len(fd_sites), len(ex_sites)), loc=w.fn_loc(fn))
+    if len(ex_sites) != 1 or len(fd_sites) != 1:
+        return
+    ex, fd = ex_sites[0], fd_sites[0]
+    arg = T.operand(ex.term["args"][1], ex.point)
+    s_ = repr(arg)
+    ctx.check(feed in s_ and "Some" in s_ and "downcast" in s_, rule, fn + ":argument", "the executor's argument is %s, not the payload of the parser's result" % w.tstr(fn, arg), loc=w.site_loc(ex), sample={"argument": w.tstr(fn, arg)})
+    ctx.check(b.point_dominates(fd.point, ex.point), rule, fn + ":order", "the executor call is not dominated by the parser call", loc=w.site_loc(ex))
+    guarded = False
+    for blk in b.normal_blocks():
+        t = b.term(blk)
+        if t["k"] != "switch":
+            continue
+        d = T.operand(t["discr"], (blk, b.n_stmts(blk)))
+        if d[0] == "discr" and feed in repr(d):
+            for val, tgt in t["targets"]:
+                if val == 1 and b.edge_controls((blk, tgt), ex.point[0]):
+                    guarded = True
+            if not guarded and b.edge_controls((blk, t["otherwise"]), ex.point[0]) and [v for v, _ in t["targets"]] == [0]:
+                guarded = True
+    ctx.check(guarded, rule, fn + ":guard", "the executor call is not control-dependent on the parser having returned Some(_)", loc=w.site_loc(ex))
+    recv_f = WD.strip_names(T.operand(fd.term["args"][0], fd.point))
+    recv_e = WD.strip_names(T.operand(ex.term["args"][0], ex.point))
+    ctx.check(recv_f[0] == "ref" and recv_e[0] == "ref" and recv_f[2][0] == "load" and recv_e[2][0] == "load" and recv_f[2] != recv_e[2], rule, fn + ":receivers",
+              "the parser step and the executor must act on Vt's own parser and terminal", loc=w.site_loc(ex))
